@@ -222,6 +222,124 @@ pub fn sweep(profile: Profile, n: usize, sh: &util::Shard, styles: &[syntax::Sty
     rep
 }
 
+
+// ------------------------------------------------------------------ edited programs
+
+/// Seed programs rich in feature interactions; every single edit of each (token / fragment
+/// insertion, deletion, replacement, adjacent swap) that still parses and passes the static
+/// rules is evaluated by model and implementation. The implementation's own parser supplies
+/// the tree (C15 decides the parser), so arbitrary texts become model inputs.
+pub const SEM_SEEDS: &[&str] = &[
+    "{ a : 1 } + { [ k ] : super . a for k in [ \"b\" ] } + { a : 5 }",
+    "local o = { a : 1 , b : self . a + 1 } ; o { a : 10 } . b",
+    "{ a : 1 , assert self . a > 0 : \"neg\" } { a : - 1 }",
+    "local f ( x ) = if x == 0 then 0 else 1 + f ( x - 1 ) ; f ( 3 )",
+    "[ { a : i } for i in [ 1 , 2 ] ] [ 1 ] . a",
+    "{ a +: { b : 1 } } + { a +: { c : 2 } }",
+    "local a = [ 1 , 2 , 3 ] ; [ a [ i ] for i in [ 2 , 1 , 0 ] if i < 2 ]",
+    "{ f ( x ) :: x + self . k , k : 1 , r : self . f ( 2 ) }",
+    "{ a : { b : $ . c } , c : 3 } . a . b",
+    "{ [ if true then \"a\" ] : 1 , [ null ] : 2 }",
+    "std . length ( { a : 1 , b :: 2 } ) + std . length ( [ 1 , 2 ] )",
+    "{ a : 1 , b :: 2 } + { a :: 3 , b : 4 } + { a ::: 5 }",
+    "{ local v = self . a , a : 1 , b : v } { a : 2 }",
+    "local o = { x : 1 , y : super . x } ; { x : 2 } + o",
+    "{ a : \"x\" in super , b : \"a\" in self } + { x : 1 }",
+    "local g = function ( a , b = a ) [ a , b ] ; g ( 1 ) + g ( b = 2 , a = 3 )",
+    "std . objectFields ( { [ k ] +: 1 for k in [ \"p\" , \"q\" ] } { p : 5 } )",
+    "{ a : [ self . b , super . b ] , b : 1 } + { b : 2 } tailstrict",
+    "[ x for x in [ { a : 1 } + { a +: 1 } ] ] [ 0 ] { a +: 1 }",
+    "{ assert self . a == 1 , a : 1 } + { assert super . a == 1 : \"m\" , a +: 0 }",
+    "\"a\" + 1 + [ 1 ] [ 0 ] + { a : null } . a",
+    "std . map ( function ( x ) x * 2 , [ 1 , 2 ] ) + std . filter ( function ( x ) x > 1 , [ 1 , 2 ] )",
+];
+
+pub const SEM_ALPHABET: &[&str] = &[
+    "{", "}", "[", "]", "(", ")", ",", ";", ":", "::", ":::", "+:", ".", "=", "+", "-", "!", "==", "<", "in", "$", "self", "super", "local", "assert",
+    "if", "then", "else", "for", "error", "tailstrict", "null", "true", "1", "\"a\"", "k", "x", "a", "b",
+    "assert true ,", ", assert self . a == 1 : \"m\"", "local v = self ,", ", local w = super . a", "for k in [ \"a\" , \"b\" ]", "if false", "[ k ] : 1 ,", ", [ \"c\" ] +: 1", "a : 1 ,", ", b :: 2", ", a ::: 3", ", a +: 1",
+    "self . a", "super . a", "$ . a", "+ { a : 2 }", "{ a +: 1 }", "{ }", ". a", "[ 0 ]", "[ 1 : ]", "local v = 1 ;", "assert true ;", "function ( x )", "( 1 )", "+ self", "+ super . a", "error \"e\"",
+];
+
+fn edit_sweep(two: bool, sh: &util::Shard) -> Report {
+    let mut rep = Report::new();
+    let mut n = 0u64;
+    let seeds: Vec<&str> = SEM_SEEDS.iter().chain(crate::c01::EDIT_SEEDS.iter()).copied().collect();
+    for (si, seed) in seeds.iter().enumerate() {
+        let cases = crate::c01::edit_cases_with(seed, two, SEM_ALPHABET);
+        let base = n;
+        n += cases.len() as u64;
+        let mut start = 0usize;
+        while start < cases.len() {
+            let arena = Arena::new();
+            let mut p = Program::new(&arena);
+            let mut next = cases.len();
+            for (ci, src) in cases.iter().enumerate().skip(start) {
+                let id = base + ci as u64 + 1;
+                if !sh.mine(id) || !sh.begin_case(id, &|| src.clone()) {
+                    continue;
+                }
+                rep.states += 1;
+                let parsed = util::catch(|| crate::c15::impl_parse(src.as_bytes()));
+                let e = match parsed {
+                    Ok(crate::c15::Parsed::Tree(e, _)) => crate::c15::plain_numbers(&syntax::strip_parens(&e)),
+                    Ok(_) => {
+                        rep.outcome("edit:not-a-program");
+                        continue;
+                    }
+                    Err(m) => {
+                        rep.violation(format!("C02/panic/{}", util::panic_site(&m)), format!("panic while parsing `{src}`: {m}"), json!({"type":"eval","source":src}));
+                        continue;
+                    }
+                };
+                if !syntax::static_check(&e, true).is_empty() {
+                    rep.outcome("edit:statically-rejected");
+                    continue;
+                }
+                let jr = util::catch(|| judge_on(&mut p, &e, src));
+                let j = match jr {
+                    Ok(j) => j,
+                    Err(m) => {
+                        rep.violation(format!("C02/panic/{}", util::panic_site(&m)), format!("panic while evaluating `{src}`: {m}"), json!({"type":"eval","source":src}));
+                        next = ci + 1;
+                        break;
+                    }
+                };
+                rep.evaluations += 1;
+                rep.traces_validated += 1;
+                rep.transitions += j.model_steps;
+                rep.outcome(&format!("edit:model:{}", ref_class(&j.ref_outcome)));
+                rep.distinct(&(ref_class(&j.ref_outcome), j.impl_outcome.class(), crate::features::feature_set(&e)));
+                if let RefOutcome::Err(RErr::Unsupported(why)) = &j.ref_outcome {
+                    rep.count("outside_model", 1);
+                    rep.count(&format!("outside_model:{why}"), 1);
+                }
+                if id % 4999 == 0 {
+                    rep.sample(json!({"source": src, "model": format!("{:?}", j.ref_outcome), "impl": j.impl_outcome.short()}));
+                }
+                if let Some(d) = j.disagreement {
+                    let fresh = util::catch(|| {
+                        let a2 = Arena::new();
+                        let mut p2 = Program::new(&a2);
+                        judge_on(&mut p2, &e, src).disagreement
+                    });
+                    if let Ok(None) = fresh {
+                        rep.count("disagreement_not_reproduced_on_fresh_state", 1);
+                        continue;
+                    }
+                    rep.violation(
+                        format!("C02/{}/{}", ref_class(&j.ref_outcome), j.impl_outcome.class()),
+                        format!("`{src}`: {d}"),
+                        json!({"type":"eval","source":src,"seed":si,"model":format!("{:?}", j.ref_outcome),"impl":j.impl_outcome.short()}),
+                    );
+                }
+            }
+            start = next;
+        }
+    }
+    rep
+}
+
 pub fn plan(ctx: &Ctx) -> Vec<(Profile, usize)> {
     let mut v = Vec::new();
     if let Ok(pl) = std::env::var("VERIF_PLAN") {
@@ -274,12 +392,19 @@ pub fn run(ctx: &Ctx) -> i32 {
         sizes.insert(format!("{}:{}", profile.name, n), json!(r.states));
         total.merge(r);
     }
+    {
+        let cfg = util::ForkCfg { threads: ctx.threads, mem_bytes: 3 << 30, case_timeout_s: 60, died_signature: "C02/abort".into(), resource_is_violation: false };
+        let r = util::par_forked(&cfg, 256, |sh| edit_sweep(!ctx.quick(), sh));
+        total.extra.insert("edited_programs".into(), json!(r.states));
+        total.extra.insert("edited_programs_compared_with_model".into(), json!(r.evaluations));
+        total.merge(r);
+    }
     total.extra.insert("programs_per_profile_and_size".into(), serde_json::Value::Object(sizes));
     util::finish(
         ctx,
         LevelInfo {
             level: "model_checking",
-            rule: "all closed programs with <= n AST nodes over the production alphabets of DESIGN §3.4 (profile `full` and focused profiles), each printed in 2 concrete syntaxes; a case is distinct+nontrivial by (model outcome class, implementation outcome class, set of syntactic features used)".into(),
+            rule: "all closed programs with <= n AST nodes over the production alphabets of DESIGN §3.4 (profile `full` and focused profiles), each printed in 2 concrete syntaxes; plus every single edit (token or fragment insertion, deletion, replacement, adjacent swap; thorough: plus a second deletion) of the feature-interaction seed programs that parses and passes the static rules, with the tree taken from the implementation's parser; a case is distinct+nontrivial by (model outcome class, implementation outcome class, set of syntactic features used)".into(),
             assumptions: vec![
                 "reference interpreter refeval.rs is the specification's semantics for the modelled subset".into(),
                 "programs outside the model (RErr::Unsupported) are counted and not compared".into(),
